@@ -42,6 +42,13 @@ def space(tier):
             units.append(({"program": p, "cfg": {"env_kinds": ["fault"], "faults": ["5xx", "blackhole"], "api_latency": 0.05,
                                                  "policy": pol, "timer_choices": pol == "rtb"}},
                           {"fault": 1, "thread": 1, "timer": 1, "total": 2 if pol == "rtb" else 1}, cap))
+    # one preemption at any line of threading.py / state.py while a call fails (waiters released between two lines)
+    import aws_durable_execution_sdk_python.state as _stm
+    import aws_durable_execution_sdk_python.threading as _thm
+    for n in ("S", "Sm", "W", "C"):
+        units.append(({"program": P.program((n,)), "cfg": {"env_kinds": ["fault"], "faults": ["5xx"],
+                                                          "line_files": [_stm.__file__, _thm.__file__]}},
+                      {"fault": 1, "thread": 1, "total": 2}, cap))
     big = {"name": "S+bigresult", "seq": P.U("S"), "ret": {"pad": 6 * 1024 * 1024}}
     units.append(({"program": big, "cfg": {"env_kinds": ["fault"], "faults": ["blackhole", "5xx"]}},
                   {"fault": 1, "total": 1}, cap))
@@ -53,5 +60,5 @@ simcheck.install(globals(), "C03", [monitors.judge_c03], space,
                  "programs: 14 one-unit and 8 two-unit programs over all operation kinds + a handler whose result "
                  "exceeds the response limit; sequential one-unit programs: every schedule with <=2 deviations (thread "
                  "choices and timer-first) and every API call black-holed or failed (5xx) combined with <=1 scheduling "
-                 "deviation; 4 programs whose step body ends while a 50 ms checkpoint call is in flight (records queued behind an in-flight call), each call failed or black-holed; concurrent shapes (parallel/map): <=1 deviation in quick, <=2 in thorough; policies rtb/low/high. Oracle evaluated at the instant of each delivery against the "
+                 "deviation; 4 programs whose step body ends while a 50 ms checkpoint call is in flight (records queued behind an in-flight call), each call failed or black-holed; 4 programs with a failing call and one preemption at any line of state.py/threading.py; concurrent shapes (parallel/map): <=1 deviation in quick, <=2 in thorough; policies rtb/low/high. Oracle evaluated at the instant of each delivery against the "
                  "backend's own table.")
